@@ -85,6 +85,7 @@ class Counter:
         self.step = int(fill.get("step", 1))
         self.alt = bool(fill.get("alt", True))
         self.mod = int(fill.get("mod", 0))
+        self.square = bool(fill.get("square", False))
         self.dtype = dtype
         self.k = 0
 
@@ -94,6 +95,8 @@ class Counter:
         self.k += 1
         if self.mod:
             v = 1 + (v - 1) % self.mod
+        if self.square:
+            return v * v
         if self.alt and self.k % 3 == 0:
             v = -v
         return v
